@@ -597,11 +597,10 @@ fn record_to_proto(record: Record) -> proto::Record {
             .expires
             .map(|t| {
                 let now = Instant::now();
-                if t > now {
-                    (t - now).as_secs() as u32
-                } else {
-                    1 // because 0 means "does not expire"
-                }
+                // At least 1, because 0 means "does not expire".
+                u32::try_from(t.saturating_duration_since(now).as_secs())
+                    .unwrap_or(u32::MAX)
+                    .max(1)
             })
             .unwrap_or(0),
         time_received: String::new(),
